@@ -67,6 +67,7 @@ func runC15(c *Ctx) {
 	}()
 	runC15Literals(c)
 	runC15Representations(c)
+	runC15Quantities(c)
 	c.meta.Rule = "narrowing: all 11x11 integer kind pairs; source values exhaustive for 8-bit sources, every 16-bit value at stride (quick) or exhaustively (thorough), boundary and random 32/64-bit values; distinct by (from, to, value)"
 	// 8-bit: exhaustive
 	for v := math.MinInt8; v <= math.MaxInt8; v++ {
